@@ -44,6 +44,7 @@ def main():
             out["apply_error"] = r.stderr[-500:]
             print(json.dumps(out, indent=1))
             return
+        sh("cp /repo/traits/version.py %s/traits/version.py" % wt)   # git-ignored; setup.py needs it in a worktree
         r = sh("cd %s && %s setup.py build_ext --inplace" % (wt, PY))
         out["builds"] = r.returncode == 0
         r = sh("PYTHONPATH=/repo %s %s" % (PY, os.path.join(d, "demo.py")), cwd="/tmp")
